@@ -871,7 +871,7 @@ Section PROC.
         intros [= <- <- <-]. split; [|exact I1]. apply Hpatch; [exact Gm | apply json_parser_noselect].
       + destruct (process main c st) as [[[req st1] main']|] eqn:E1; cbn [bind]; [|discriminate].
         destruct (IHmain _ _ _ _ Hinv E1) as [Gm I1].
-        destruct ps as [|p0 ps']; [discriminate|]. destruct (pp_path p0) as [[|re names]|]; try discriminate.
+        destruct ps as [|p0 ps']; [discriminate|]. destruct (LogqlRegexp.re_plan (pp_val p0)) as [[re names]|]; try discriminate.
         intros [= <- <- <-]. split; [|exact I1]. apply Hpatch; [exact Gm | apply regex_map_noselect].
     - (* PDropP *)
       destruct (process main c st) as [[[req st1] main']|] eqn:E1; cbn [bind]; [|discriminate].
